@@ -213,14 +213,17 @@ func runX(r *ev.Recorder, c *xCase) (string, string) {
 func TestXMSSRecovery(t *testing.T) {
 	r := ev.New(t, prop, "TestXMSSRecovery")
 	r.Rule("rapid: seed x 3 hash functions x height (real hashing 4, 6, sometimes 8; 10 in the thorough tier; cheap-leaf mode for heights 12, 14, 16 - and 18, 20 in the thorough tier - so that the larger height nibbles pass through every constructor); the key is re-created from its extended seed, its mnemonic, its hex seed (0x stripped) and from seed+parameters; oracle: identical public key, addresses, exported secrets, and byte-identical signatures at index 0, 1 and after one drawn forward jump; small real keys are also compared with the reference model; non-trivial = every case (4 re-creations, 12 signature comparisons), distinct by (mode,hash,h,seed)")
-	checks := r.PerShard(r.Pick(330, 9000))
+	checks := r.PerShard(r.Pick(330, 4000))
 	r.Rapid(t, "xmss", checks, func(rt *rapid.T) {
 		c := &xCase{Mode: "real", Hash: uint(rapid.SampledFrom(pu.Hashes).Draw(rt, "hash")), Seed: pu.Seed48().Draw(rt, "seed"), Jump: rapid.Uint32().Draw(rt, "jump")}
 		if seamOn != nil && rapid.IntRange(0, 2).Draw(rt, "seam") == 0 {
 			c.Mode = "seam"
 			hs := []int{12, 12, 14, 14, 16}
 			if r.Thorough() {
-				hs = []int{12, 14, 16, 18, 20}
+				hs = []int{12, 12, 14, 14, 14, 16, 16, 16, 18, 18}
+				if rapid.IntRange(0, 24).Draw(rt, "h20") == 0 {
+					hs = []int{20}
+				}
 			}
 			c.H = rapid.SampledFrom(hs).Draw(rt, "h")
 			c.Jump %= 4096 // keep the fast-forward short at big heights
